@@ -727,7 +727,7 @@ func c11Compare(ctx *vh.Ctx, c *c11Case, o *c11CaseObs) error {
 			}
 			return "<no-sub>"
 		}
-		modelFinal := map[int]string{}  // gid -> model's final value of the node
+		modelFinal := map[int]string{}    // gid -> model's final value of the node
 		modelAfterPre := map[int]string{} // gid -> model's value handed to the body
 		type cellRes struct {
 			tasks []int
@@ -1140,4 +1140,3 @@ func runC11(ctx *vh.Ctx) error {
 	}
 	return nil
 }
-
